@@ -130,16 +130,45 @@ def _class_programs(repo, fname, clsname, prefix):
     return out
 
 
+def _rational(repo):
+    path = os.path.join(repo, 'droop', 'values', 'rational.py')
+    tree = ast.parse(open(path).read(), path)
+    cls = [n for n in tree.body if isinstance(n, ast.ClassDef) and n.name == 'Rational']
+    if len(cls) != 1:
+        raise TranslationError('%s: class Rational not found once' % path)
+
+    def tr(n):
+        if isinstance(n, ast.Name) and n.id in ('arg1', 'arg2', 'arg3'):
+            return {'arg1': '.a', 'arg2': '.b', 'arg3': '.c'}[n.id]
+        if isinstance(n, ast.Call) and _path(n.func) in ('Rational.__mul__', 'Rational.__truediv__') and len(n.args) == 2 and not n.keywords:
+            return '(.%s %s %s)' % ('mul' if _path(n.func).endswith('__mul__') else 'div', tr(n.args[0]), tr(n.args[1]))
+        raise TranslationError('%s: expression not accepted: %s' % (path, ast.dump(n)[:140]))
+    out = {}
+    for n in cls[0].body:
+        if isinstance(n, ast.FunctionDef) and n.name in ('mul', 'div', 'muldiv'):
+            body = [st for st in n.body if not (isinstance(st, ast.Expr) and isinstance(st.value, ast.Constant))]
+            if not (len(body) == 1 and isinstance(body[0], ast.Return) and body[0].value is not None):
+                raise TranslationError('%s: Rational.%s is not a single return' % (path, n.name))
+            out['r' + n.name[0].upper() + n.name[1:]] = ('REx', tr(body[0].value))
+    if len(out) != 3:
+        raise TranslationError('%s: Rational.mul/div/muldiv not all found' % path)
+    return out
+
+
 def programs(repo):
     out = _class_programs(repo, 'fixed.py', 'Fixed', '')
     out.update(_class_programs(repo, 'guarded.py', 'Guarded', 'g'))
+    out.update(_rational(repo))
     return out
 
 
 def lean_file(progs):
     lines = ['import Props.C12Prog', 'namespace Gen', 'open Droop Droop.C12', '']
     for name, text in sorted(progs.items()):
-        lines.append('def %s : FEx := %s' % (name, text))
+        ty = 'FEx'
+        if isinstance(text, tuple):
+            ty, text = text
+        lines.append('def %s : %s := %s' % (name, ty, text))
         lines.append('theorem %s_is_committed : %s = C12.%sProg := by rfl' % (name, name, name))
         lines.append('#print axioms %s_is_committed' % name)
         lines.append('')
